@@ -719,6 +719,14 @@ func (w *world) oneCase(c *reg.Ctx, ev *eval.Evaler, t template) {
 			}
 		}
 	}
+	useFixed := t.kind == "arg" && c.Rand.Intn(4) == 0
+	w.runCase(c, ev, t, tbl, pieces, dotPiece, dotOff, style, value, wordKind, useFixed, "")
+}
+
+// runCase types the pieces into the template, calls complete.Complete and emits
+// the case with all independent observations.
+func (w *world) runCase(c *reg.Ctx, ev *eval.Evaler, t template, tbl tblSet, pieces []piece, dotPiece, dotOff int,
+	style parse.PrimaryType, value, wordKind string, useFixed bool, classSuffix string) {
 	buf := t.pre
 	dot := len(buf)
 	for i, p := range pieces {
@@ -734,7 +742,7 @@ func (w *world) oneCase(c *reg.Ctx, ev *eval.Evaler, t template) {
 	cfg := complete.Config{}
 	var fg *fixedGen
 	srcKind := "files"
-	if t.kind == "arg" && c.Rand.Intn(4) == 0 {
+	if useFixed {
 		fg = w.fixedCandidates(c, tbl)
 		cfg.ArgGenerator = func(args []string) ([]complete.RawItem, error) {
 			fg.args = append(fg.args, args)
@@ -800,7 +808,7 @@ func (w *world) oneCase(c *reg.Ctx, ev *eval.Evaler, t template) {
 		d.Src = fmt.Sprintf("files of %q", dirToRead)
 	}
 
-	class := t.kind + "/" + wordKind
+	class := t.kind + "/" + wordKind + classSuffix
 	if len(path) > 0 {
 		if pn, ok := path[0].(*parse.Primary); ok && pn.Type == parse.Variable {
 			switch {
@@ -899,6 +907,92 @@ func (w *world) oneCase(c *reg.Ctx, ev *eval.Evaler, t template) {
 		Nontrivial: nontrivial, Class: class})
 }
 
+// ---------------------------------------------------------------- planted cases
+
+// plantedNames: one representative (at least) of every hostile class, present in
+// EVERY run whatever the seed: invalid UTF-8 (Latin-1 name, lone continuation and
+// lead bytes), control bytes, newline / tab / CR / DEL, both quotes, dollar,
+// tilde, leading dashes and dots, glob and other metacharacters, unprintable and
+// astral unicode, U+FFFD itself, spaces.
+var plantedNames = []string{
+	"caf\xe9", "a\xffb", "\xfe", "\x80x", "ab\xc3", "\xe6\x97", "a\xef\xbf\xbdb",
+	"a\x01", "a\x1bb", "a\nb", "a\tb", "a\rb", "a\x7f",
+	"a'b", "'", "a''", `a"b`, `"`, `a\b`,
+	"$x", "a$b", "$", "~t", "~", "a~",
+	"-dash", "--", "-", ".hid", ".h x", "..x", "...",
+	"a*b", "*", "a?b", "?", "[x]", "a[", "{a,b}", "a{b}",
+	"a b", " lead", "trail ", "a  b", "a;b", "a|b", "a&b", "a>b", "a<b", "a(b", "a)b", "#c", "a#b", "a=b", "a,b", "a`b", "a^b", "%x", "@y", "a:b", "e:x",
+	"é", "日本", "\u200b", "\u00a0x", "\U0001F600", "plain", "Plain2",
+}
+
+// planted runs, in a fixed world, every hostile name through argument completion
+// in all three seed styles: the names are spread over the directories p0..p3 and
+// each directory is completed with the seeds  pN/  'pN/  "pN/  (every entry is
+// offered), with a one-rune prefix of every entry in both quoted styles (and bare
+// when the prefix is a bareword), and as a redirection target.
+func planted(c *reg.Ctx) {
+	root := filepath.Join(c.Scratch, "planted")
+	os.MkdirAll(root, 0o755)
+	w := &world{root: root, home: filepath.Join(root, "home"), vars: map[string]string{"d": "sub", "r": root}}
+	os.Mkdir(w.home, 0o755)
+	os.Mkdir(filepath.Join(root, "sub"), 0o755)
+	const nDirs = 4
+	dirs := make([][]string, nDirs)
+	for i, n := range plantedNames {
+		k := i % nDirs
+		d := filepath.Join(root, fmt.Sprintf("p%d", k))
+		os.MkdirAll(d, 0o755)
+		p := d + "/" + n
+		var err error
+		if i%5 == 4 {
+			err = os.Mkdir(p, 0o755)
+		} else {
+			err = os.WriteFile(p, nil, 0o644)
+		}
+		if err == nil {
+			dirs[k] = append(dirs[k], n)
+		}
+	}
+	oldwd, _ := os.Getwd()
+	os.Chdir(root)
+	os.Setenv("HOME", w.home)
+	defer os.Chdir(oldwd)
+	ev := eval.NewEvaler()
+	styles := []parse.PrimaryType{parse.Bareword, parse.SingleQuoted, parse.DoubleQuoted}
+	emit := func(t template, st parse.PrimaryType, v string, closed bool) {
+		if st == parse.Bareword && !bareSafe(v) {
+			return
+		}
+		if st == parse.SingleQuoted && !utf8.ValidString(v) {
+			return // cannot be typed in single quotes
+		}
+		text := typeQuoted(st, v, closed)
+		kind := strings.ToLower(strings.TrimPrefix(ptypeName[st], "T"))
+		w.runCase(c, ev, t, tblSet{}, []piece{{st, v, text}}, 0, len(text), st, v, kind, false, "/planted")
+	}
+	arg, redir := template{"echo ", "", "arg"}, template{"echo a > ", "", "redir"}
+	for k := 0; k < nDirs; k++ {
+		dir := fmt.Sprintf("p%d/", k)
+		for _, st := range styles {
+			emit(arg, st, dir, false)
+		}
+		emit(redir, parse.SingleQuoted, dir, true)
+		// one-rune (or one-byte) prefixes of the entries
+		seen := map[string]bool{}
+		for _, n := range dirs[k] {
+			_, wd := utf8.DecodeRuneInString(n)
+			pre := dir + n[:wd]
+			if seen[pre] {
+				continue
+			}
+			seen[pre] = true
+			for _, st := range styles {
+				emit(arg, st, pre, st == parse.DoubleQuoted)
+			}
+		}
+	}
+}
+
 func pathLeafSep(path np.Path) (*parse.Sep, bool) {
 	if len(path) == 0 {
 		return nil, false
@@ -932,6 +1026,8 @@ func run(c *reg.Ctx) {
 		os.WriteFile(filepath.Join(bin, n), []byte("#!/bin/sh\n"), 0o755)
 	}
 	os.Setenv("PATH", bin)
+
+	planted(c)
 
 	perWorld := 12
 	worlds := c.N/perWorld + 1
